@@ -72,7 +72,7 @@ def strategy(tier):
         if "clock" in dims:
             var["clock"] = draw(st.integers(0, 4000000000))
         if "outname" in dims:
-            var["outname"] = draw(st.sampled_from(["other.torrent", "x", "sub-out.torrent"]))
+            var["outname"] = draw(st.sampled_from(["other.torrent", "x", "sub-out.torrent", "INSIDE-CONTENT"]))
         return {"tree": t, "P": P, "creator": creator, "route": route, "info_opts": info_opts, "variant": var}
     return case()
 
@@ -119,6 +119,9 @@ def create(case, env, root, scr, tag):
     outdir = os.path.join(scr, "out-" + tag)
     os.makedirs(outdir, exist_ok=True)
     out = os.path.join(outdir, env["outname"])
+    if env["outname"] == "INSIDE-CONTENT" and not case["tree"]["single"]:
+        # the metafile is written into the payload directory itself (it does not exist while the payload is hashed)
+        out = os.path.join(root, case["tree"]["name"] + "-inside.torrent")
     opts = dict(case["info_opts"])
     for k in ("announce", "url_list", "httpseeds"):
         if env[k]:
